@@ -14,10 +14,15 @@
 (*   reused while the backend stays in the table, closed by the periodic   *)
 (*   clean-up once the backend has left the table.                         *)
 (*                                                                         *)
-(* State: the routing table, the connection pool, the backends' connection *)
-(* counters and the call in flight.  One action per step of the design:    *)
-(* SetTable, CallStart, Route | NotFound, Dial | Reuse, MsgToBackend,      *)
-(* EofToBackend, MsgToCaller, Finish, CleanupTick, Drop.                   *)
+(* State: the routing table, the connection pool, the backends (listening  *)
+(* or not, connections open at / accepted by their listeners), the call in *)
+(* flight and the burst of overlapping calls in flight.  One action per    *)
+(* step of the design: SetTable, CallStart, Route | NotFound, Dial | Reuse *)
+(* | Unavailable | Reconnect | StillBackingOff, MsgToBackend,              *)
+(* EofToBackend, MsgToCaller, Finish, CleanupTick, Drop, BackendDown,      *)
+(* BackendUp, and for a burst of first calls BurstStart, BGet, BDial,      *)
+(* BSet, BFly, BLand, BurstEnd (the pool accesses of the overlapping calls *)
+(* interleave freely).                                                     *)
 (*                                                                         *)
 (* A message is an opaque token; "unmodified" is token equality (the       *)
 (* harness turns tokens into real protobuf messages and back).             *)
